@@ -15,6 +15,11 @@ var idxAssume = []string{
 }
 
 var metas = map[string]PropMeta{
+	"C10": {
+		Explanation: "Typestate E/S/T (unchanged since entry / in sync / stale) propagated through every function below Flatten with summaries over success exits only (error exits are excluded by the dominating err != nil test). Events: stores into document storage and in-place external mutators (stale), the rebuild method on the Spec handed to Flatten (sync), reads of Spec's index fields or query methods on that Spec (need sync when nothing was mutated yet in the function). Fresh analyzers (New(opts.Swagger()), the partial analyzer of importNewRef) are other objects and change nothing.",
+		NotDecided:  []string{"that the caller's Spec was in sync when handed to Flatten (assumed)", "equality of answers is derived from 'the last event is a re-analysis identical to New'; the analyzer's own completeness is C11–C14"},
+		Assumptions: []string{"mutator set complete: write-effect summaries plus the external table (spec.ExpandSpec/ExpandSchema, swag.FromDynamicJSON, AddExtension)", "index reads after a phase's own mutations are by design (snapshot iteration) and are not constrained"},
+	},
 	"C11": {
 		Explanation: "Abstract evaluation of analysis.New over a symbolic document. For every position of the spec model that can hold a parameter, response, header, items, path item, operation or schema (enumerated from go/types) and for every schema-bearing field of spec.SchemaProps, the rules decide: a $ref there is registered in the index of its kind (the index is identified by the exported getter that reads it), under exactly the JSON pointer of its holder, mirrored in the all-view, and under no other condition than the $ref being non-empty.",
 		NotDecided:  []string{"multiplicity when two holders map to one key (excluded for C01's alphabet by ENC-SPLICE)", "shared parameters/responses that are themselves $refs (exempt: outside the quantifier, unsupported by spec.ExpandSpec)", "`dependencies` (not in C11's keyword list)"},
